@@ -404,7 +404,14 @@ class DiscreteQuadraticModel:
         return energy
 
     def energies(self, samples):
-        samples, labels = as_samples(samples, dtype=self._cydqm.case_dtype)
+        samples, labels = as_samples(samples)
+
+        # make sure the cases fit in the case dtype before casting, otherwise
+        # out-of-range values wrap around
+        info = np.iinfo(self._cydqm.case_dtype)
+        if samples.size and (samples.min() < info.min or samples.max() > info.max):
+            raise ValueError("invalid case")
+        samples = samples.astype(self._cydqm.case_dtype, copy=False)
 
         # reorder as needed
         if len(labels) != self.num_variables():
